@@ -74,7 +74,7 @@ REGISTRY = {
         'explanation': 'queue and dispatch-order contracts discharged by z3',
     },
     'C04': {
-        'modules': ['contracts.core_dispatch'], 'level': 'proof',
+        'modules': ['contracts.core_dispatch', 'contracts.core_values'], 'level': 'proof',
         'level_text': 'Per-handler case analysis of the dispatcher loop body for an arbitrary iteration (loop invariant), contracts on '
                       '_eventDone, processTask and Value.setValue: results stored once in order, one exception (+ one failure) event per '
                       'raising handler with the loop continuing, success fired iff requested, no handler raised and none is waiting.',
